@@ -43,6 +43,9 @@ SITES = ['reindex_fill', 'shift_fill', 'series_concat', 'frame_concat_rows', 'fr
          'fillna_forward_axis1_block', 'fillna_backward_axis1_block', 'assign_frame_into_block', 'series_insert']
 
 
+TECHNIQUE = 'runtime monitoring: loss oracle (every supplied element must be read back equal) at 30 merge sites x the dtype-pair matrix, with arranged Python-value inputs and multi-column block sites'
+
+
 def _is_str(dt):
     return dt.startswith('<U')
 
